@@ -220,7 +220,8 @@ def escapeQuotes(text: str) -> str:
 
 
 def strToIntOrFloat(inputStr: str) -> float:
-    return float(inputStr) if "." in inputStr else int(inputStr)
+    isFloat = "." in inputStr or "e" in inputStr.lower()
+    return float(inputStr) if isFloat else int(inputStr)
 
 
 def getValueAtTime(
